@@ -26,7 +26,8 @@ def respell(rng, v):
     return rng.choice(alts) if alts else None
 BEHAVES = ['ret', 'boom', 'forbid', 'notfound']
 GRANT_PERMS = ['view', 'edit', 'ZERO', 'EMPTY', 'NPR']
-RES_OF_CTX = {None: [0, 1, 2], 'Root': [0], 'A': [1, 2], 'B': [2], 'I': [2]}
+RES_OF_CTX = {None: [0, 1, 2, 3], 'Root': [0], 'A': [1, 2], 'B': [2], 'I': [2]}
+NRES = 4                 # resource 3 (/t) is an instance of Boom: the normal half of an exception-context view serves it
 
 
 def gen_perm(rng, p_none=0.34):
@@ -170,9 +171,15 @@ def gen_requests(rng, case, n):
             if 'custom' in t['preds'] and rng.random() < 0.7:
                 r['truth'] = sorted({i for i, nt in t['preds']['custom'] if not nt} |
                                     ({x for x in r['truth']} - {i for i, nt in t['preds']['custom'] if nt}))
+        elif t is not None and t['k'] == 'view' and t['ctx'] in ('Boom', 'Exception') and not t.get('exc_only') and rng.random() < 0.6:
+            # the NORMAL half of add_view(context=<exception class>): traversal to a resource that is an exception instance
+            r['vname'], r['res'] = '', 3
+            r['route'] = t['route'] if rng.random() < 0.9 else None
+            if r.get('op') == 'render':
+                r['route'] = None
         else:
             r['vname'] = rng.choice(VNAMES)
-            r['res'] = rng.randrange(3)
+            r['res'] = rng.randrange(NRES)
             r['route'] = rng.choice(routes) if routes and rng.random() < 0.3 and r.get('op') != 'render' else None
         out.append(r)
     return out
@@ -273,7 +280,7 @@ def gen_case(rng):
             'flavour': rng.randrange(20), 'requests': []}
     p = rng.choice([0.3, 0.5, 0.5, 0.7, 0.9])
     for perm in GRANT_PERMS:
-        for c in [[0, i] for i in range(3)] + [[1, i] for i in range(len(EXC_KINDS))]:
+        for c in [[0, i] for i in range(NRES)] + [[1, i] for i in range(len(EXC_KINDS))]:
             if rng.random() < p:
                 case['grants'].append([perm, c])
     case['requests'] = gen_requests(rng, case, rng.choice([8, 10, 12]))
@@ -413,7 +420,7 @@ def valid(case):
             return False
         for g in case['grants']:
             if not (isinstance(g, list) and len(g) == 2 and g[0] in PERM_TOKENS and isinstance(g[1], list) and len(g[1]) == 2
-                    and ((g[1][0] == 0 and g[1][1] in range(3)) or (g[1][0] == 1 and g[1][1] in range(len(EXC_KINDS))))):
+                    and ((g[1][0] == 0 and g[1][1] in range(NRES)) or (g[1][0] == 1 and g[1][1] in range(len(EXC_KINDS))))):
                 return False
         has_static = any(s['k'] == 'static' for s in st)
         if 'warm' in case and (cut is None or not isinstance(case['warm'], list) or not case['warm']
@@ -434,7 +441,7 @@ def valid(case):
                 return False
             if 'static' in r and r['static'] is not True:
                 return False
-            if not (r['route'] is None or r['route'] in routes) or r['res'] not in range(3) or r['vname'] not in VNAMES:
+            if not (r['route'] is None or r['route'] in routes) or r['res'] not in range(NRES) or r['vname'] not in VNAMES:
                 return False
             if r['method'] not in METHODS or not _is_bool(r['xhr']):
                 return False
@@ -666,6 +673,14 @@ def targeted_cases():
             rqs = [_rq(vname='v', method=x) for x in ('GET', 'POST', 'HEAD')]
             out.append(_case(copy.deepcopy(st), [], copy.deepcopy(rqs), cut=2))
             out.append(_case(copy.deepcopy(st), [['edit', [0, 0]]], copy.deepcopy(rqs), cut=2))
+    # add_view(context=<exception class>) registers a normal half too: a resource that is an instance of the class reaches it,
+    # and there the default permission applies (the exception half is exempt)
+    for dp in ('view', 'ZERO'):
+        st = [dict(pol), {'k': 'defperm', 'perm': dp, 'ctor': False}, _v(1, ctx='Boom'), _v(2, ctx='Exception', perm='edit'),
+              _v(3, behave='boom', perm='NPR'), _v(4, ctx='Boom', name='', exc_only=True, route=None, preds={'xhr': True})]
+        rqs = [_rq(res=3), _rq(), _rq(res=3, xhr=True)]
+        for g in ([], [[dp, [0, 3]]], [[dp, [1, 4]]]):
+            out.append(_case(copy.deepcopy(st), g, copy.deepcopy(rqs)))
     # content negotiation: a slot with accept= views served under some Accept header, then a later commit overrides one
     # constituent (same predicates, same accept) with a protected view; the same and other spellings of the header follow
     for other in ({'accept': 'text/html'}, {'preds': {'xhr': True}}):
